@@ -76,6 +76,35 @@ def gen_wide(rng):
     return ds, q
 
 
+def gen_star(rng):
+    """a subject-centred star (>= 3 default-scope patterns with one subject variable), sometimes with a repeated pattern
+    (the optimizer re-appends it), a tail, and a FILTER directly above the star (the Selection-over-star rewrite)"""
+    ds = L.gen_dataset(rng)
+    while len(ds["default"]) < 8:
+        ds = L.gen_dataset(rng)
+    V, C = L.V, L.C
+    subj = rng.choice([t[0] for t in ds["default"]])
+    mine = [t for t in ds["default"] if t[0] == subj] or ds["default"]
+    pats, used = [], ["a"]
+    for i in range(rng.choice([3, 3, 4, 5])):
+        t = rng.choice(mine)
+        o = C(t[2]) if rng.random() < 0.3 else V(rng.choice(["b", "c", "d", "e"]))
+        p = C(t[1]) if rng.random() < 0.8 else V("f")
+        pats.append([V("a"), p, o])
+    if rng.random() < 0.3:
+        pats.insert(rng.randrange(len(pats) + 1), rng.choice(pats))          # the same pattern twice
+    if rng.random() < 0.5:
+        pats.append([V(rng.choice(["b", "c"])), C(rng.choice(L.PRED)), V("g")])   # a tail outside the star
+    rng.shuffle(pats)
+    elems = [["bgp", pats]]
+    if rng.random() < 0.5:
+        elems.append(["filter", ["cmp", "!=", V("a"), C(rng.choice(L.SUBJ))]])
+    q = {"distinct": False, "proj": "*", "from": [], "from_named": [], "where": ["group", elems], "group_by": [], "order_by": [], "limit": None}
+    if rng.random() < 0.3:
+        q["where"] = ["group", [["union", [["group", elems], ["group", [["values", ["a"], [[C(subj)]]]]]]]]]
+    return ds, q
+
+
 def pattern_solutions(ds, q):
     view = L.View(ds, q.get("from", []), q.get("from_named", []))
     rows = L.eval_elem(q["where"], view, None)
@@ -86,9 +115,13 @@ def gen_cases(ctx, n):
     rng = ctx.rng
     cases, ops = [], {}
     while len(cases) < n:
-        if rng.random() < 0.12:
+        r0 = rng.random()
+        if r0 < 0.12:
             ds, q = gen_wide(rng)
             ops["wide"] = ops.get("wide", 0) + 1
+        elif r0 < 0.22:
+            ds, q = gen_star(rng)
+            ops["star"] = ops.get("star", 0) + 1
         else:
             ds = L.gen_dataset(rng)
             g = L.Gen(rng, ds)
@@ -154,7 +187,8 @@ def evaluate(ctx, binpath, cases, stream, threads, coq=True, known_seen=None):
         q = c["q"]
         im = base[i]
         classes, wellscoped = L.classify(q)
-        if has_apostrophe_constant(q):
+        sel_classes = C1.extra_classes(q)        # memo-key-collision, group-by-without-aggregate (C01's SELECT-level classes)
+        if "memo-key-collision" in sel_classes:
             classes = classes | {"memo-key-collision"}
         case_out = {"ds": c["ds"], "ds_before": c["ds_before"], "ds_update": c["ds_update"], "q": q, "query": c["query"]}
         if not wellscoped:
@@ -261,6 +295,8 @@ def evaluate(ctx, binpath, cases, stream, threads, coq=True, known_seen=None):
             es = im.get("entry_stale", {})
             spec = L.spec_answer(c["ds"], q)
             bad = L.check_answer(q, spec, es["rows"]) if "rows" in es else "no rows: %r" % (es,)
+            if sel_classes:
+                bad = None          # the final answer is inside a SELECT-level class of C01; the pattern solutions were compared above
             if bad:
                 st["violations"] += 1
                 ctx.violation(case_out, {"what": "execute_sparql_query with a stale statistics cache: " + bad, "implementation_rows": es.get("rows", [])[:30],
